@@ -3,7 +3,7 @@
                                                page bodies that need decompression (phase 1)
      (fmt_validate STRICT #file TABLE)      -> (ok) | (bad why) | (uns why)
      (fmt_decode STRICT #file TABLE)        -> (ok (LEAF ...) (RG ...)) | (bad why) | (uns why)
-         LEAF = (#name TYPE TLEN MAXDEF (CONV)? (LOGICAL-MEMBER UNIT)? (SCALE)? (PRECISION)?)   RG = (COLUMN ...)   COLUMN = (CELL ...)
+         LEAF = (#name TYPE TLEN MAXDEF (CONV)? (LOGICAL-MEMBER UNIT)? (SCALE)? (PRECISION)? (LOGICAL-TREE)?)   RG = (COLUMN ...)   COLUMN = (CELL ...)
          CELL = () NULL | xN numeric bit pattern | #bytes
      TABLE = ((#KEY #uncompressed) ...), KEY = codec byte followed by the compressed bytes, instantiates `decompress` (phase 2; trusted: cramjam)
      STRICT = 1: a bit-packed run must be present in full; 0: only the bytes of the values needed. *)
@@ -35,7 +35,8 @@ Definition s_leaf (l : leaf) : sx :=
       | Some v => match logical_summary v with Some (a, b) => SL [sN a; sN b] | None => SL [] end
       | None => SL []
       end;
-      sopt SZ (lf_scale l); sopt SZ (lf_prec l)].
+      sopt SZ (lf_scale l); sopt SZ (lf_prec l);
+      sopt Cmd_Thrift.sx_of_tv (lf_logical l)].
 
 Definition h_fmt_pages (a : list sx) : sx :=
   match a with
